@@ -237,6 +237,18 @@ def judge(ctx, specs, worlds, tag):
     return nviol
 
 
+def dotted_names(ctx):
+    """model files whose name contains a dot (my.model.yml): the cache key must still contain the content hash (regression of the
+    with_suffix defect repaired in /repo 5c7f137)"""
+    rc, out = vlib.sh([vlib.PY, os.path.join(vlib.VERIF, "harness", "c17_dotted_stem.py"), vlib.REPO], env=vlib.repo_env(home=ctx.home), timeout=300)
+    ctx.count(2)
+    ctx.nontriv("dotted-model-file-name")
+    if rc != 0:
+        last = [l for l in out.strip().splitlines() if "->" in l][-2:]
+        ctx.violation("edit-not-picked-up:dotted-model-file-name", "a model file whose name contains a dot gets a cache file without the content hash, "
+                      "an edited file is served from the stale entry: %s" % " | ".join(last), {"dotted": True})
+
+
 def isa_edits(ctx, only=None):
     """The ISA semantics file is a model file too: edits of it inside one process and between processes (oracle only; the Coq trace
     model of the cache protocol is exercised by the arch-file histories)."""
@@ -305,6 +317,7 @@ def histories(ctx, hook):
         nv += judge(ctx, specs2, worlds2, "random")
         ctx.sample(describe(specs2[0], worlds2[0]))
         isa_edits(ctx)
+        dotted_names(ctx)
     finally:
         cleanup(ctx)
     ctx.coverage["histories"] = len(specs) + len(specs2)
@@ -319,6 +332,8 @@ def cleanup(ctx):
 
 def replay(ctx, obj):
     r = obj["replay"]
+    if r.get("dotted"):
+        return dotted_names(ctx)
     if "isa_edit" in r:
         try:
             isa_edits(ctx, only=r["isa_edit"])
